@@ -64,6 +64,7 @@ type Frame struct {
 	hintCount map[string]int
 	modLocs  []modLoc
 	dryBack  []*State
+	trk      *trackState // final values of local variables for `assert return` (track.go)
 }
 
 type iterInfo struct {
@@ -229,7 +230,7 @@ func (vc *VC) addOblig(kind, name string, st *State, goal string, pos token.Pos,
 	if goal == "true" {
 		// trivially true obligations are still counted (discharged syntactically)
 	}
-	vc.obligs = append(vc.obligs, &Oblig{Name: name, Kind: kind, Reach: st.reach, Goal: goal, Pos: pos, Text: text, Func: vc.fn.String()})
+	vc.obligs = append(vc.obligs, &Oblig{Name: name, Kind: kind, Reach: st.reach, Goal: goal, Pos: pos, Text: text, Func: vc.fn.String(), Epoch: vc.epoch})
 }
 
 // safety adds a safety obligation named by the source text of the operation.
@@ -240,6 +241,9 @@ func (fr *Frame) safety(kind string, st *State, goal string, pos token.Pos, text
 	}
 	if goal == "true" {
 		return
+	}
+	if vc.noSafety && kind != "frame" {
+		return // this selection does not claim panic freedom (another check does): no obligation, and nothing assumed from it
 	}
 	if text == "" {
 		text = fr.opText(pos)
@@ -253,7 +257,7 @@ func (fr *Frame) safety(kind string, st *State, goal string, pos token.Pos, text
 	if k := vc.safetyCount[base]; k > 1 {
 		name = fmt.Sprintf("%s@%d", base, k)
 	}
-	vc.obligs = append(vc.obligs, &Oblig{Name: name, Kind: kind, Reach: st.reach, Goal: goal, Pos: pos, Text: text, Func: vc.fn.String()})
+	vc.obligs = append(vc.obligs, &Oblig{Name: name, Kind: kind, Reach: st.reach, Goal: goal, Pos: pos, Text: text, Func: vc.fn.String(), Epoch: vc.epoch})
 	// after the check, execution continues only if it held. Exceptions: a frame obligation that is syntactically false
 	// (the write is simply not allowed: the analysis goes on, the obligation is reported) and obligations that are not
 	// claimed for this check (they may be false; assuming them could make what follows vacuous).
@@ -384,6 +388,13 @@ func (fr *Frame) runBlocks(order []*ssa.BasicBlock, entry *ssa.BasicBlock, st0 *
 				// dry run of a loop body: header phis already bound by caller
 			}
 		}
+		if fr.trk != nil {
+			var tsts []*State
+			for _, e := range ins {
+				tsts = append(tsts, e.st)
+			}
+			fr.trackEnter(b, b == entry, isHeader, ins, tsts)
+		}
 		// instructions
 		alive := true
 		for _, ins2 := range b.Instrs {
@@ -395,6 +406,7 @@ func (fr *Frame) runBlocks(order []*ssa.BasicBlock, entry *ssa.BasicBlock, st0 *
 				break
 			}
 		}
+		fr.trackLeave(b)
 		if !alive {
 			continue
 		}
@@ -451,8 +463,12 @@ func (fr *Frame) execInstr(ins ssa.Instruction, st *State) bool {
 	if p := ins.Pos(); p.IsValid() {
 		vc.curPos = p
 	}
+	if fr.trk != nil {
+		fr.atLine(ins, st)
+	}
 	switch in := ins.(type) {
 	case *ssa.DebugRef:
+		fr.trackRef(in)
 		return true
 	case *ssa.If, *ssa.Jump:
 		return true
@@ -461,6 +477,7 @@ func (fr *Frame) execInstr(ins ssa.Instruction, st *State) bool {
 		for _, r := range in.Results {
 			vals = append(vals, fr.val(r))
 		}
+		fr.atReturn(in, st)
 		fr.runDefers(st)
 		fr.rets = append(fr.rets, retRec{st: st.clone(), vals: vals, pos: in.Pos()})
 		return false
